@@ -23,10 +23,19 @@ def setup(ctx):
     asmmon.install()
 
 
+UNIT = {"idx8": (" LDA 100,X\n", 3), "idx16": (" LDX 1000,Y\n", 4), "idxneg": (" STA -100,U\n", 3), "ext": (" JMP $1234\n", 3),
+        "imm16": (" LDY #$1234\n", 4), "extind": (" LDA [$1234]\n", 4), "idx5": (" LDB 5,S\n", 2), "pshs": (" PSHS A,B\n", 2),
+        "idx16ind": (" LDD [300,X]\n", 4), "fdb": (" FDB 1,2\n", 4), "fcc": (' FCC "ABC"\n', 3)}
+
+
 def filler(n, style):
     if n <= 0:
         return []
-    if style == "rmb":
+    if style in UNIT and n < 4000:
+        line, sz = UNIT[style]
+        k = n // sz
+        return [line] * k + [" NOP\n"] * (n - k * sz)
+    if style == "rmb" or style in UNIT:
         return [" RMB %d\n" % n]
     if style == "nop":
         return [" NOP\n"] * n
@@ -90,8 +99,10 @@ def pcr_cases(thorough, seed):
         for ind in (False, True):
             for fwd in (True, False):
                 for gap in ds:
-                    for k in ((0, 1, 2) if gap < 1000 else (0,)):
+                    for k in ((0, 1, 2, 6) if gap < 1000 else (0,)):
                         if k and not (110 <= gap <= 135) and not thorough:
+                            continue
+                        if k == 6 and not (100 <= gap <= 130):
                             continue
                         r = rng(seed, "C03", mn, ind, fwd, gap, k)
                         op = "[T,PCR]" if ind else "T,PCR"
@@ -102,11 +113,14 @@ def pcr_cases(thorough, seed):
                         for j in range(k):
                             inner.append("P%d LDA Q%d,PCR\n" % (j, j))
                             extra_src.append(("P%d" % j, "Q%d" % j, 0))
+                        if k == 6:
+                            room = max(0, gap - 18)       # keep the true distance (filler + 6 inner statements) near the limit
                         pre = room // 2 if k else room
+                        style = r.choice(["rmb", "rmb", "nop"] + sorted(UNIT))
                         if fwd:
-                            body = ["S %s %s\n" % (mn, op)] + filler(pre, "rmb") + inner + filler(room - pre, "rmb") + ["T NOP\n"]
+                            body = ["S %s %s\n" % (mn, op)] + filler(pre, style) + inner + filler(room - pre, "rmb") + ["T NOP\n"]
                         else:
-                            body = ["T NOP\n"] + filler(pre, "rmb") + inner + filler(room - pre, "rmb") + ["S %s %s\n" % (mn, op)]
+                            body = ["T NOP\n"] + filler(pre, style) + inner + filler(room - pre, "rmb") + ["S %s %s\n" % (mn, op)]
                         # targets for inner statements: placed after everything at dialled distances
                         tail = []
                         for j in range(k):
